@@ -39,6 +39,7 @@ type Contract struct {
 	Pure        bool
 	MayPanic    bool
 	AssumeFrame bool
+	Callbacks   map[string]bool
 	DeadCode    map[string]bool
 	AllocBound  ast.Expr
 	Props       []string
@@ -291,6 +292,16 @@ func parseContractFile(path, pkg string) (*ContractFile, error) {
 			cur.MayPanic = true
 		case "assume-frame":
 			cur.AssumeFrame = true
+		case "callback":
+			// callback <param> modifies nothing
+			n, r2 := splitWord(rest)
+			if strings.TrimSpace(r2) != "modifies nothing" {
+				return nil, fail(fmt.Errorf("callback <param> modifies nothing"))
+			}
+			if cur.Callbacks == nil {
+				cur.Callbacks = map[string]bool{}
+			}
+			cur.Callbacks[n] = true
 		case "deadcode":
 			if cur.DeadCode == nil {
 				cur.DeadCode = map[string]bool{}
